@@ -614,6 +614,9 @@ pub fn sweep<F: Fl>(job: &Job, out: &mut Out) {
     let mut dfs = DfsOrders::default();
     let val_sets: Vec<Vec<i8>> = if prop == "C06" && p.val_range > 0 {
         val_assignments(p.n, p.val_range)
+    } else if matches!(prop, "C07" | "C08" | "C09") {
+        // the priority-first kinds are also run with all node values equal (ties everywhere)
+        vec![(0..p.n).map(|k| default_val(k as K)).collect(), vec![0; p.n]]
     } else {
         vec![(0..p.n).map(|k| default_val(k as K)).collect()]
     };
@@ -624,7 +627,7 @@ pub fn sweep<F: Fl>(job: &Job, out: &mut Out) {
         out.stats.inc("shapes");
         crate::progress::set_case(|| json!({"kind":"gsweep-shape","flavour":F::NAME,"n":p.n,"conns":conns}).to_string());
         let conns_t: Vec<(K, K)> = conns.iter().map(|(u, v)| (*v, *u)).collect();
-        for vals in &val_sets {
+        for (vi, vals) in val_sets.iter().enumerate() {
             let m = GModel::new(p.n, F::DIRECTED, conns, vals);
             let arcs = m.distinct_arcs(false);
             let arcs_t = if F::DIRECTED { m.distinct_arcs(true) } else { vec![] };
@@ -636,6 +639,9 @@ pub fn sweep<F: Fl>(job: &Job, out: &mut Out) {
             let wt = if prop == "C08" { Some(build_world::<F>(vals, &conns_t)) } else { None };
             for root in 0..p.n as K {
                 for (cfg, reject, mode) in configs(prop, F::DIRECTED, p.n, root, &arcs, &arcs_t) {
+                    if prop != "C06" && vi > 0 && !matches!(cfg.kind, Kind::PfsMin | Kind::PfsMax) {
+                        continue;
+                    }
                     crate::progress::tick();
                     let c = GCase { n: p.n, conns: conns.clone(), vals: vals.clone(), root, cfg, reject, mode: mode.to_string() };
                     out.stats.inc("evaluations");
